@@ -182,7 +182,13 @@ class Gen:
         items = items[:1]
       return ("dict", items)
     if k < 0.65 and not hashable:
-      return ("set", [self.expr(names, depth - 1, True, in_func) for _ in range(r.randint(1, 3))])
+      elts = []
+      for _ in range(r.randint(1, 3)):
+        x = self.expr(names, depth - 1, True, in_func)
+        # CPython / pytype fold all-constant set displays and drop equal elements: avoid equal literal elements
+        if lit_key(x) is None or all(lit_key(y) != lit_key(x) for y in elts):
+          elts.append(x)
+      return ("set", elts)
     if hashable:
       return self.lit()
     if k < 0.80:
@@ -589,3 +595,33 @@ def parse_pyi_constants(pyi):
     elif isinstance(node, ast.FunctionDef):
       funcs[node.name] = parse_type_expr(node.returns) if node.returns is not None else ("any",)
   return consts, funcs
+
+
+def ty_subset(a, b):
+  """A syntactic sufficient condition for gamma(a) <= gamma(b) on canonical types (value-set reading: containers
+  are covariant, bool <= int, tuple[a,b] <= tuple[x, ...] when a,b <= x)."""
+  if b == ("any",) or a == ("nothing",) or a == b:
+    return True
+  if a[0] == "union":
+    return all(ty_subset(x, b) for x in a[1])
+  if b[0] == "union":
+    return any(ty_subset(a, y) for y in b[1])
+  if a == ("any",):
+    return False
+  if a == ("base", "bool") and b == ("base", "int"):
+    return True
+  if b == ("base", "object"):
+    return True
+  if a[0] == "gen" and b[0] == "gen" and a[1] == b[1] and len(a[2]) == len(b[2]):
+    return all(ty_subset(x, y) for x, y in zip(a[2], b[2]))
+  if a[0] == "tuple" and b[0] == "tuple" and len(a[1]) == len(b[1]):
+    return all(ty_subset(x, y) for x, y in zip(a[1], b[1]))
+  if a[0] == "tuple" and b[0] == "homtuple":
+    return all(ty_subset(x, b[1]) for x in a[1])
+  if a[0] == "homtuple" and b[0] == "homtuple":
+    return ty_subset(a[1], b[1])
+  return False
+
+
+def parse_type_str(s):
+  return parse_type_expr(ast.parse(s, mode="eval").body)
